@@ -173,9 +173,12 @@ func (m *runtimeContextManager) PopContext() RuntimeContext {
 	}
 	verifCtx("popped", &mCopy, nil, 0, 0)
 	parentLeft := m.parent.hardLimits.Remove(m.parent.usedResources)
-	m.parent.RequireCPU(m.usedResources.Cpu)
-	m.parent.RequireMem(m.usedResources.Memory)
+	// Reinstate the parent before charging it: charging can terminate it (it
+	// looks at the clock), and a termination must not leave the context that
+	// is ending installed.
 	*m = *m.parent
+	m.RequireCPU(mCopy.usedResources.Cpu)
+	m.RequireMem(mCopy.usedResources.Memory)
 	if m.trackTime {
 		m.updateTimeUsed()
 	}
